@@ -33,18 +33,24 @@ type Site struct {
 
 // Info is what the instrumenter reports.
 type Info struct {
-	Module      string   `json:"module"`
-	Sites       []Site   `json:"sites"`
-	PoolGets    int      `json:"pool_gets"`
-	PoolPuts    int      `json:"pool_puts"`
-	SyncRewrite int      `json:"sync_rewrites"`
-	AtomicSites int      `json:"atomic_sites"`
-	AtomicVars  []string `json:"atomic_vars"`
-	Knobs       []string `json:"knobs"`
-	Globals     []string `json:"globals"`
-	Unmonitored []string `json:"globals_unmonitored"`
-	Files       int      `json:"files"`
-	Notes       []string `json:"notes"`
+	Module       string      `json:"module"`
+	Sites        []Site      `json:"sites"`
+	PoolGets     int         `json:"pool_gets"`
+	PoolPuts     int         `json:"pool_puts"`
+	SyncRewrite  int         `json:"sync_rewrites"`
+	AtomicSites  int         `json:"atomic_sites"`
+	AtomicVars   []string    `json:"atomic_vars"`
+	ScratchFuncs []scratchFn `json:"-"`
+	Knobs        []string    `json:"knobs"`
+	Globals      []string    `json:"globals"`
+	Unmonitored  []string    `json:"globals_unmonitored"`
+	Files        int         `json:"files"`
+	Notes        []string    `json:"notes"`
+}
+
+type scratchFn struct {
+	Name string
+	Sig  *types.Signature
 }
 
 type edit struct {
@@ -387,6 +393,24 @@ func seamEdits(fset *token.FileSet, j *fileJob, ti *types.Info, info *Info) erro
 		switch x := n.(type) {
 		case *ast.GoStmt:
 			info.Notes = append(info.Notes, fmt.Sprintf("%s: go statement at line %d is not simulated (runs as a real goroutine)", j.rel, fset.Position(x.Pos()).Line))
+		case *ast.FuncDecl:
+			if j.pkg == "" && x.Recv == nil && x.Body != nil && (x.Name.Name == "getDec" || x.Name.Name == "putDec") {
+				if obj, ok := ti.Defs[x.Name].(*types.Func); ok {
+					sig := obj.Type().(*types.Signature)
+					isPtr := func(t types.Type) bool { _, ok := t.Underlying().(*types.Pointer); return ok }
+					okShape := false
+					if x.Name.Name == "getDec" {
+						okShape = sig.Results().Len() == 1 && isPtr(sig.Results().At(0).Type()) && !sig.Variadic()
+					} else {
+						okShape = sig.Params().Len() == 1 && isPtr(sig.Params().At(0).Type()) && sig.Results().Len() == 0
+					}
+					if okShape {
+						p := fset.Position(x.Name.End()).Offset
+						j.edits = append(j.edits, edit{p, p, "__orig"})
+						info.ScratchFuncs = append(info.ScratchFuncs, scratchFn{Name: x.Name.Name, Sig: sig})
+					}
+				}
+			}
 		case *ast.GenDecl:
 			if x.Tok == token.CONST && len(x.Specs) == 1 && !x.Lparen.IsValid() {
 				vs := x.Specs[0].(*ast.ValueSpec)
